@@ -201,7 +201,7 @@ def gen_rich(rng, P, serial=0):
 
   # styling
   big = rng.random() < 0.06            # sizes no enumeration reaches: a dozen chained styles, wide and deep content
-  nstyles = rng.choice([0, 0, 1, 2, 3, 4]) if not big else rng.randint(8, 14)
+  nstyles = rng.choice([0, 0, 1, 2, 3, 4]) if not big else (rng.randint(8, 14) if rng.random() < 0.6 else rng.randint(65, 100))
   ids = ["s%d" % (k + 1) for k in range(nstyles)]
   for sid in ids:
     pool = ids + ["sX"]
@@ -216,7 +216,7 @@ def gen_rich(rng, P, serial=0):
     S = doc["S"]
     for k, st in enumerate(S):
       st["refs"] = [ids[k + 1]] if k + 1 < len(S) else []
-      st["attrs"] = rand_attrs(rng, CONTENT_PROPS, 1, 1) if (k >= len(S) - 3 or rng.random() < 0.3) else []
+      st["attrs"] = rand_attrs(rng, CONTENT_PROPS + ["displayAlign", "showBackground"], 1, 2) if (k >= len(S) - 3 or rng.random() < 0.3) else []
     forced = "s1"
   elif nstyles >= 3 and rng.random() < 0.35:
     # a chain (or diamond) of three styles declared BEFORE the styles they reference, each contributing its own property:
@@ -371,6 +371,10 @@ def gen_rich(rng, P, serial=0):
     for _ in range(rng.choice([0, 0, 1, 2])):
       nd["nested"].append(rand_attrs(rng, REGION_PROPS, 1, 2))
       nd["nrefs"].append(srefs() if rng.random() < 0.3 else [])
+    if big and rng.random() < 0.8:
+      # a nested style that has nothing of its own and points INTO the long chain (at a style nothing else has referenced)
+      nd["nested"].append([])
+      nd["nrefs"].append([rng.choice(ids[1:])])
     if rng.random() < 0.3:
       p = rng.choice(["backgroundColor", "displayAlign", "visibility"])
       s = add(doc, "set", i, sprop=p, sval=rng.choice(VALUES[p]))
